@@ -170,6 +170,10 @@ def run(ctx):
     ctx.cov["checker_cmd"] = "coqc -Q coq/Values BWValues coq/Values/Props/C06.v ; work/bin/h_values -mode uuid ; pre-images computed by coqc (vm_compute), hashed by h_values -mode hash"
     thorough = ctx.tier == "thorough"
     rows = vc.hrows(["-mode", "uuid", "-seed", str(ctx.seed), "-n", "40000" if thorough else "1500"])
+    for r in [r for r in rows if r["kind"] == "ctor"][:3]:
+        ctx.violation({"kind": "property-violated-by-implementation", "class": "constructor-getter-mismatch", "explain": r["what"],
+                       "failing_input": {"id": vc.show(r["id"]), "anchor": r["anchor"], "printed": vc.show(r["printed"])}})
+    rows = [r for r in rows if r["kind"] != "ctor"]
     vals, owner = [], []
     for i, r in enumerate(rows):
         if r["kind"] == "uuid":
